@@ -321,6 +321,14 @@ pub fn run(thorough: bool, rest: &[String]) {
         for sc in scs.iter_mut() {
             sc.name = format!("{}[array_cache_cap={}]", sc.name, cap);
             sc.key_opts.heads = true;
+            // cold and warm reconstruction caches are different states here; read() warms them
+            sc.key_opts.acache = true;
+            for r in 0..sc.nrep.min(2) {
+                sc.alphabet.push(Op::Read(r));
+            }
+            if !thorough && sc.max_depth > 3 {
+                sc.max_depth -= 1;
+            }
         }
         run_h(&mut rep, RunCfg { scenarios: scs, probes: vec![std::sync::Arc::new(StoredVersionsProbe)], pools: vec![1], time_budget_s: if thorough { 900 } else { 15 }, max_states: if thorough { 100_000 } else { 4_000 }, stop_on_violation: true });
     }
